@@ -341,6 +341,145 @@ type wFramed struct {
 	Fill  string `json:"fill"` // zero | ff : content and padding bytes
 }
 
+// wOffset: one value encoded into a buffer that already has a history - PrefixLen bytes written by
+// PrefixKind (so the value starts at any offset mod 4, not only at a word boundary), optionally inside
+// re-used memory whose spare capacity holds garbage - and followed by a trailer value, so that "consumes
+// exactly the encoded length" is observable as the trailer decoding correctly.
+type wOffset struct {
+	Reuse      string `json:"buffer"`      // fresh | dirty-capacity (Reset() buffer whose capacity is filled with 0xA5 and is big enough for everything)
+	PrefixKind string `json:"prefix_kind"` // put | uint16 | expand
+	PrefixLen  int    `json:"prefix_len"`
+	Value      string `json:"value"`   // name understood by offsetValue
+	Trailer    string `json:"trailer"` // name understood by offsetValue
+}
+
+var offsetScalars = map[string]tval{}
+var offsetScalarNames []string
+
+func init() {
+	add := func(name string, v tval) {
+		offsetScalars[name] = v
+		offsetScalarNames = append(offsetScalarNames, name)
+	}
+	for _, t := range []string{"int", "int32", "uint32", "id", "fields"} {
+		add(t+":count", tval{t, []byte{0x11, 0x22, 0x33, 0x44}})
+		add(t+":ff", tval{t, le32(0xffffffff)})
+	}
+	for _, t := range []string{"long", "int53", "uint64", "double"} {
+		add(t+":count", tval{t, []byte{0x11, 0x22, 0x33, 0x44, 0x55, 0x66, 0x77, 0x88}})
+		add(t+":ff", tval{t, le64(math.MaxUint64)})
+	}
+	for _, t := range []string{"int128", "int128.Decode"} {
+		add(t+":count", tval{t, kit.Pattern("count", 16)})
+		add(t+":ff", tval{t, kit.Pattern("ff", 16)})
+	}
+	for _, t := range []string{"int256", "int256.Decode"} {
+		add(t+":count", tval{t, kit.Pattern("count", 32)})
+		add(t+":ff", tval{t, kit.Pattern("ff", 32)})
+	}
+	add("bool:true", tval{"bool", []byte{1}})
+	add("bool:false", tval{"bool", []byte{0}})
+	add("vector:0", tval{"vector", le32(0)})
+	add("vector:3", tval{"vector", le32(3)})
+	add("vector:max", tval{"vector", le32(1<<31 - 1)})
+}
+
+// offsetValue resolves a value name: a scalar from offsetScalars or "<string|bytes>:<len>:<pattern>".
+func offsetValue(name string) tval {
+	if v, ok := offsetScalars[name]; ok {
+		return v
+	}
+	f := strings.Split(name, ":")
+	if len(f) == 3 && (f[0] == "string" || f[0] == "bytes") {
+		if l, err := strconv.Atoi(f[1]); err == nil && l >= 0 && l < 1<<24 {
+			return tval{f[0], content(f[2], l)}
+		}
+	}
+	panic("unknown value " + name)
+}
+
+func evalOffset(w wOffset) kit.Result {
+	if w.PrefixLen < 0 || w.PrefixLen > 64 {
+		panic("prefix length")
+	}
+	val, trailer := offsetValue(w.Value), offsetValue(w.Trailer)
+	valSpec, trSpec := val.spec(), trailer.spec()
+	buf := &bin.Buffer{}
+	switch w.Reuse {
+	case "fresh":
+	case "dirty-capacity":
+		buf.Buf = bytes.Repeat([]byte{0xA5}, w.PrefixLen+len(valSpec)+len(trSpec)+16)
+		buf.Reset()
+	default:
+		panic("buffer " + w.Reuse)
+	}
+	// prefix bytes are never 0 so that a value written over them, or padding taken from them, shows
+	var prefix []byte
+	switch w.PrefixKind {
+	case "put":
+		for i := 0; i < w.PrefixLen; i++ {
+			prefix = append(prefix, byte(0xC1+i))
+		}
+		buf.Put(prefix)
+	case "uint16":
+		if w.PrefixLen%2 != 0 {
+			panic("uint16 prefix of odd length")
+		}
+		for i := 0; i < w.PrefixLen/2; i++ {
+			buf.PutUint16(uint16(0xD2C1 + 0x0202*i))
+			prefix = append(prefix, byte(0xC1+2*i), byte(0xD2+2*i))
+		}
+	case "expand":
+		buf.Expand(w.PrefixLen)
+		prefix = make([]byte, w.PrefixLen)
+	default:
+		panic("prefix kind " + w.PrefixKind)
+	}
+	if !bytes.Equal(buf.Buf, prefix) {
+		return kit.Bad("harness-error", "prefix %s/%d gives %s", w.PrefixKind, w.PrefixLen, short(buf.Buf))
+	}
+	off := fmt.Sprintf("offset%%4=%d", w.PrefixLen%4)
+	parts := []struct {
+		what string
+		v    tval
+		spec []byte
+	}{{"value", val, valSpec}, {"trailer", trailer, trSpec}}
+	for _, p := range parts {
+		before := buf.Len()
+		p.v.put(buf)
+		if buf.Len() < before || !bytes.Equal(buf.Buf[:len(prefix)], prefix) {
+			return kit.Bad("offset:earlier-bytes-changed:"+p.v.T, "%s (%s, %d content bytes) written at offset %d changed the %d bytes before it: %s", p.what, p.v.T, len(p.v.Raw), before, before, short(buf.Buf[:min(before, buf.Len())]))
+		}
+		enc := buf.Buf[before:]
+		if len(enc)%4 != 0 {
+			return kit.Bad("offset:unaligned:"+p.v.T, "%s (%s, %d content bytes) written into a buffer holding %d bytes encoded to %d bytes", p.what, p.v.T, len(p.v.Raw), before, len(enc))
+		}
+		if !bytes.Equal(enc, p.spec) {
+			return kit.Bad("offset:encoding!=spec:"+p.v.T, "%s (%s, %d content bytes) written into a buffer holding %d bytes (%s) encoded to %s, TL spec says %s", p.what, p.v.T, len(p.v.Raw), before, w.Reuse, short(enc), short(p.spec))
+		}
+	}
+	// decode from a private copy: skip the prefix, then the value and the trailer must come back and use everything
+	rd := &bin.Buffer{Buf: append([]byte(nil), buf.Buf...)}
+	rd.Skip(len(prefix))
+	for _, p := range parts {
+		before := rd.Len()
+		got, err := primByName(p.v.T).dec(rd)
+		if err != nil {
+			return kit.Bad("offset:roundtrip-error:"+p.v.T, "%s (%s, %d content bytes) written at offset %d does not decode: %v", p.what, p.v.T, len(p.v.Raw), len(buf.Buf)-before, err)
+		}
+		if !bytes.Equal(got, p.v.Raw) {
+			return kit.Bad("offset:roundtrip-value:"+p.v.T, "%s (%s) written at offset %d: wrote %s, read %s", p.what, p.v.T, len(buf.Buf)-before, short(p.v.Raw), short(got))
+		}
+		if before-rd.Len() != len(p.spec) {
+			return kit.Bad("offset:roundtrip-consumption:"+p.v.T, "%s (%s): encoded length %d, decode consumed %d", p.what, p.v.T, len(p.spec), before-rd.Len())
+		}
+	}
+	if rd.Len() != 0 {
+		return kit.Bad("offset:roundtrip-consumption", "%d bytes left after decoding everything", rd.Len())
+	}
+	return kit.OKo("roundtrip@" + off + "/" + w.Reuse)
+}
+
 func content(pattern string, n int) []byte {
 	switch pattern {
 	case "fe":
@@ -395,6 +534,7 @@ func main() {
 			}
 			return roundTrip(vals, true)
 		})
+		offset := kit.NewFamily(c, "offset-roundtrip", evalOffset)
 		decode := kit.NewFamily(c, "decode-any", func(w wDecode) kit.Result {
 			p := primByName(w.T)
 			prefix := kit.UnHex(w.Prefix)
@@ -477,6 +617,11 @@ func main() {
 			"NaN/Inf/denormal bit patterns for double, all one-hot bytes for int128/int256, vector headers 0/1/1023/1024/2^31-1); string and bytes of every " +
 			"length 0..300 (thorough 0..1100) and {1023,1024,4095,4096,4097,65535,65536,65537,2^20,2^24-4..2^24-1} x content patterns {zero,ff,fe,count,utf8}; every concatenation of <=3 " +
 			"values of a 27-value typed alphabet (thorough: <=3, plus every 4-sequence over a 9-value sub-alphabet). " +
+			"Offsets and buffer history (family offset-roundtrip): a value is written into a buffer that already holds 0..8 bytes (so it starts at every offset mod 4) put there by " +
+			"Put(raw) / PutUint16 (even lengths) / Expand, in a fresh buffer or in a Reset() buffer whose spare capacity is filled with 0xA5 and large enough that nothing reallocates, followed by a trailer value from " +
+			"{int, string of 0 and 3 bytes, bytes of 1 and 254 bytes, int128}; values: two bit patterns of every fixed-width primitive and both entry points of int128/int256, both bools, vector headers 0/3/2^31-1, " +
+			"string and bytes of every length 0..20, 248..262 (thorough 0..300, 4095..4097), 1023, 1024, 65535..65537 x patterns {count, ff}, and 2^24-1 (thorough also 2^20, 2^24-4..2^24-2) at offsets 0..3 (thorough 0..7); oracle: the bytes appended by each Put* are 4-byte aligned and equal " +
+			"the TL-spec encoding whatever the buffer held before, earlier bytes are untouched, and after Skip(prefix) the value and the trailer decode to what was written, each consuming exactly its encoded length, with nothing left. " +
 			"Decode safety (reference decoder says ok/short/malformed; short or malformed input must give an error, a canonical encoding must give the value and " +
 			"consumption, no panic): for each of the 17 decode entry points every byte string of length <=3 over all 256 byte values (quick: length 3 only for the 8 entry points int, long, int128, int256, bool, vector, string, bytes that do not delegate to another one; length <=2 for all), every string of length <=6 " +
 			"(thorough <=8) over the byte alphabet {00,01,03,04,fd,fe,ff,15}, every sequence of <=4 (thorough <=5) words over a 12-word alphabet (constructor ids, " +
@@ -485,7 +630,7 @@ func main() {
 			"inputs is in decode_inputs).")
 		c.Assume("reference TL primitive encoder/decoder in lib/reftl written from core.telegram.org/mtproto/serialize (40 lines, stdlib only)")
 		c.Assume("inputs that are well-formed but not canonical (non-zero padding, long form for a length <= 253) may be accepted or rejected: the statement is silent")
-		c.Assume("PutInt/PutVectorHeader are only given values that fit 32 bits (documented precondition); PutUint16 has no decoder and is not a TL primitive")
+		c.Assume("PutInt/PutVectorHeader are only given values that fit 32 bits (documented precondition); PutUint16 has no decoder and is not a TL primitive (it is only used to bring a buffer to an unaligned length)")
 
 		// ---- scalars
 		var w32, w64 []uint64
@@ -577,6 +722,71 @@ func main() {
 					}
 				}
 			}
+		}
+
+		// ---- values written at every offset of a buffer with history
+		{
+			var strLens []int
+			if c.Thorough() {
+				for l := 0; l <= 300; l++ {
+					strLens = append(strLens, l)
+				}
+				strLens = append(strLens, 1023, 1024, 4095, 4096, 4097)
+			} else {
+				for l := 0; l <= 20; l++ {
+					strLens = append(strLens, l)
+				}
+				for l := 248; l <= 262; l++ {
+					strLens = append(strLens, l)
+				}
+				strLens = append(strLens, 1023, 1024)
+			}
+			strLens = append(strLens, 65535, 65536, 65537)
+			values := append([]string(nil), offsetScalarNames...)
+			for _, l := range strLens {
+				for _, t := range []string{"string", "bytes"} {
+					for _, p := range []string{"count", "ff"} {
+						values = append(values, fmt.Sprintf("%s:%d:%s", t, l, p))
+					}
+				}
+			}
+			trailers := []string{"int:count", "string:0:count", "string:3:count", "bytes:1:ff", "bytes:254:count", "int128:count"}
+			var oj []wOffset
+			for _, v := range values {
+				for _, reuse := range []string{"fresh", "dirty-capacity"} {
+					for pl := 0; pl <= 8; pl++ {
+						for _, pk := range []string{"put", "uint16", "expand"} {
+							if pk == "uint16" && pl%2 != 0 {
+								continue
+							}
+							for _, tr := range trailers {
+								oj = append(oj, wOffset{reuse, pk, pl, v, tr})
+							}
+						}
+					}
+				}
+			}
+			// 1 MiB and 16 MiB values: every offset, one prefix kind and trailer (thorough: both buffers and all boundary lengths)
+			big := []int{1<<24 - 1}
+			reuses := []string{"fresh"}
+			if c.Thorough() {
+				big = []int{1 << 20, 1<<24 - 4, 1<<24 - 3, 1<<24 - 2, 1<<24 - 1}
+				reuses = []string{"fresh", "dirty-capacity"}
+			}
+			for _, l := range big {
+				for _, t := range []string{"string", "bytes"} {
+					for _, reuse := range reuses {
+						for pl := 0; pl <= 7; pl++ {
+							if c.Quick() && pl > 3 {
+								continue
+							}
+							oj = append(oj, wOffset{reuse, "put", pl, fmt.Sprintf("%s:%d:count", t, l), "bytes:1:ff"})
+						}
+					}
+				}
+			}
+			kit.Parallel(len(oj), 8, func(i int) { offset.Eval(oj[i]) })
+			c.AddInt("offset_values", int64(len(values)))
 		}
 
 		// ---- decode of arbitrary bytes
